@@ -27,177 +27,211 @@ def run(index, rep, tier):
     rep.rule("R08.5", "thin clone: the clone receives label, taxon, edge.length, edge.label and the back-reference from the source node, nothing else")
 
     # ---- R08.1
-    nparams = 0
-    for q in FAMILY:
-        fi = index.function(q)
-        un = set(unused_params(fi))
-        for p in fi.all_params:
-            if p in ("self", "cls") or p in (fi.kwarg, fi.vararg):
-                continue
-            nparams += 1
-            ok = p not in un or (q, p) in UNUSED_EXEMPT
-            rep.check(ok, "R08.1", fi.qualname, "parameter %s never read" % p, fn_where(fi),
-                      "%s(%s=...) is read in the body" % (fi.name, p),
-                      "%s accepts `%s` but never reads it: the documented option is silently ignored (e.g. suppression happens although declined)" % (fi.qualname, p))
-    rep.floor("R08.1", "parameters of the pruning/extraction family", 40, nparams)
+    with rep.section("R08.1"):
+        nparams = 0
+        for q in FAMILY:
+            fi = index.function(q)
+            un = set(unused_params(fi))
+            for p in fi.all_params:
+                if p in ("self", "cls") or p in (fi.kwarg, fi.vararg):
+                    continue
+                nparams += 1
+                ok = p not in un or (q, p) in UNUSED_EXEMPT
+                rep.check(ok, "R08.1", fi.qualname, "parameter %s never read" % p, fn_where(fi),
+                          "%s(%s=...) is read in the body" % (fi.name, p),
+                          "%s accepts `%s` but never reads it: the documented option is silently ignored (e.g. suppression happens although declined)" % (fi.qualname, p))
+        rep.floor("R08.1", "parameters of the pruning/extraction family", 40, nparams)
 
     # ---- R08.2
-    for q in EXTRACTORS:
-        fi = index.function(q)
-        t = tainted_names(fi, ["self"])
-        bad = writes_rooted_at(fi, t, STRUCT_MUTATORS)
-        # the clone-side names must not be tainted: report what was considered source-side
-        if not bad:
-            rep.ob("R08.2", fn_where(fi), "%s: no write rooted at source-side names %s" % (fi.name, sorted(t)), True)
-        for b in bad:
-            rep.check(False, "R08.2", fi.qualname, norm(b)[:120], fn_where(fi, b), "write rooted at source in " + fi.name,
-                      "%s writes through `%s`, which is (reached from) the SOURCE tree: extraction must leave the source untouched" % (fi.qualname, norm(b)[:100]))
+    with rep.section("R08.2"):
+        for q in EXTRACTORS:
+            fi = index.function(q)
+            t = tainted_names(fi, ["self"])
+            bad = writes_rooted_at(fi, t, STRUCT_MUTATORS)
+            # the clone-side names must not be tainted: report what was considered source-side
+            if not bad:
+                rep.ob("R08.2", fn_where(fi), "%s: no write rooted at source-side names %s" % (fi.name, sorted(t)), True)
+            for b in bad:
+                rep.check(False, "R08.2", fi.qualname, norm(b)[:120], fn_where(fi, b), "write rooted at source in " + fi.name,
+                          "%s writes through `%s`, which is (reached from) the SOURCE tree: extraction must leave the source untouched" % (fi.qualname, norm(b)[:100]))
 
     # ---- R08.3
-    for name in ("filter_leaf_nodes", "prune_leaves_without_taxa"):
-        fi = index.function(TREE + "." + name)
-        rets = [n for n in walk_no_nested(fi.node) if isinstance(n, ast.Return) and n.value is not None]
-        if len(rets) != 1 or not isinstance(rets[0].value, ast.Name):
-            raise AnalysisError("R08.3: %s does not return a single local list" % name)
-        R = rets[0].value.id
-        feeds = []
-        for n in walk_no_nested(fi.node):
-            if isinstance(n, ast.AugAssign) and norm(n.target) == R:
-                feeds.append((n, n.value))
-            elif isinstance(n, ast.Call) and isinstance(n.func, ast.Attribute) and norm(n.func.value) == R and n.func.attr in ("extend", "append"):
-                feeds.append((n, n.args[0] if n.args else None))
-        rep.check(len(feeds) == 1 and isinstance(feeds[0][1], ast.Name), "R08.3", fi.qualname, "feeds of %s: %s" % (R, [norm(f[0])[:50] for f in feeds]),
-                  fn_where(fi), "%s: returned list `%s` is extended from exactly one per-round list" % (name, R),
-                  "%s builds its returned 'removed' list from %s: it is not exactly the per-round removal lists" % (fi.qualname, [norm(f[0])[:50] for f in feeds]))
-        if len(feeds) != 1 or not isinstance(feeds[0][1], ast.Name):
-            continue
-        L = feeds[0][1].id
-        loops = [f for f in walk_no_nested(fi.node) if isinstance(f, ast.For) and norm(f.iter) == L]
-        ok = False
-        msg = "no loop removes the nodes of `%s`" % L
-        for f in loops:
-            var = norm(f.target)
-            for s in f.body:
-                if isinstance(s, ast.Expr) and isinstance(s.value, ast.Call) and call_name(s.value) == "remove_child" \
-                        and s.value.args and norm(s.value.args[0]) == var:
-                    ok = True
-            if not ok:
-                msg = "the loop over `%s` does not unconditionally call remove_child on each element" % L
-        rep.check(ok, "R08.3", fi.qualname, "removal loop over " + L, fn_where(fi, loops[0] if loops else None),
-                  "%s: every node of `%s` is passed to remove_child in the same round" % (name, L), "%s: %s" % (fi.qualname, msg))
-        # the feed must not be conditional on something other than the list being non-empty, and sits in the same loop
-        feed = feeds[0][0]
-        cfg = cfg_of(fi)
-        fn_nodes = [n for n in cfg.nodes if n.stmt is feed or (isinstance(n.stmt, ast.Expr) and n.stmt.value is feed)]
-        rm_nodes = [n for n in cfg.nodes if any(call_name(c) == "remove_child" for c in node_calls(n))]
-        ok2 = True
-        for rm in rm_nodes:
-            ids = {x.id for x in fn_nodes}
-            # from a removal, every path to the return passes the feed
-            # a removal happened, so the per-round list is known non-empty: `if L:` cannot take its false edge
-            okp, _ = cfg.must_pass(rm, lambda n: n.id in ids,
-                                   edge_ok=lambda s_, l_, d_: not (s_.kind == "test" and norm(s_.ast) == L and l_ == "f"))
-            ok2 = ok2 and okp
-        rep.check(ok2 and bool(fn_nodes), "R08.3", fi.qualname, "every removal is reported", fn_where(fi, feed),
-                  "%s: after any remove_child every path to the return passes `%s`" % (name, norm_stmt(feed)),
-                  "%s can remove nodes on a path that never adds them to the returned list" % fi.qualname)
+    with rep.section("R08.3"):
+        for name in ("filter_leaf_nodes", "prune_leaves_without_taxa"):
+            fi = index.function(TREE + "." + name)
+            rets = [n for n in walk_no_nested(fi.node) if isinstance(n, ast.Return) and n.value is not None]
+            if len(rets) != 1 or not isinstance(rets[0].value, ast.Name):
+                raise AnalysisError("R08.3: %s does not return a single local list" % name)
+            R = rets[0].value.id
+            feeds = []
+            for n in walk_no_nested(fi.node):
+                if isinstance(n, ast.AugAssign) and norm(n.target) == R:
+                    feeds.append((n, n.value))
+                elif isinstance(n, ast.Call) and isinstance(n.func, ast.Attribute) and norm(n.func.value) == R and n.func.attr in ("extend", "append"):
+                    feeds.append((n, n.args[0] if n.args else None))
+            rep.check(len(feeds) == 1 and isinstance(feeds[0][1], ast.Name), "R08.3", fi.qualname, "feeds of %s: %s" % (R, [norm(f[0])[:50] for f in feeds]),
+                      fn_where(fi), "%s: returned list `%s` is extended from exactly one per-round list" % (name, R),
+                      "%s builds its returned 'removed' list from %s: it is not exactly the per-round removal lists" % (fi.qualname, [norm(f[0])[:50] for f in feeds]))
+            if len(feeds) != 1 or not isinstance(feeds[0][1], ast.Name):
+                continue
+            L = feeds[0][1].id
+            loops = [f for f in walk_no_nested(fi.node) if isinstance(f, ast.For) and norm(f.iter) == L]
+            ok = False
+            msg = "no loop removes the nodes of `%s`" % L
+            for f in loops:
+                var = norm(f.target)
+                for s in f.body:
+                    if isinstance(s, ast.Expr) and isinstance(s.value, ast.Call) and call_name(s.value) == "remove_child" \
+                            and s.value.args and norm(s.value.args[0]) == var:
+                        ok = True
+                if not ok:
+                    msg = "the loop over `%s` does not unconditionally call remove_child on each element" % L
+            rep.check(ok, "R08.3", fi.qualname, "removal loop over " + L, fn_where(fi, loops[0] if loops else None),
+                      "%s: every node of `%s` is passed to remove_child in the same round" % (name, L), "%s: %s" % (fi.qualname, msg))
+            # the feed must not be conditional on something other than the list being non-empty, and sits in the same loop
+            feed = feeds[0][0]
+            cfg = cfg_of(fi)
+            fn_nodes = [n for n in cfg.nodes if n.stmt is feed or (isinstance(n.stmt, ast.Expr) and n.stmt.value is feed)]
+            rm_nodes = [n for n in cfg.nodes if any(call_name(c) == "remove_child" for c in node_calls(n))]
+            ok2 = True
+            for rm in rm_nodes:
+                ids = {x.id for x in fn_nodes}
+                # from a removal, every path to the return passes the feed
+                # a removal happened, so the per-round list is known non-empty: `if L:` cannot take its false edge
+                okp, _ = cfg.must_pass(rm, lambda n: n.id in ids,
+                                       edge_ok=lambda s_, l_, d_: not (s_.kind == "test" and norm(s_.ast) == L and l_ == "f"))
+                ok2 = ok2 and okp
+            rep.check(ok2 and bool(fn_nodes), "R08.3", fi.qualname, "every removal is reported", fn_where(fi, feed),
+                      "%s: after any remove_child every path to the return passes `%s`" % (name, norm_stmt(feed)),
+                      "%s can remove nodes on a path that never adds them to the returned list" % fi.qualname)
 
     # ---- R08.4
-    for q in FAMILY:
-        fi = index.function(q)
-        if "suppress_unifurcations" not in fi.all_params or q == NODE + ".extract_subtree":
-            continue
-        if "suppress_unifurcations" in unused_params(fi):
-            continue  # reported by R08.1
+    with rep.section("R08.4"):
+        for q in FAMILY:
+            fi = index.function(q)
+            if "suppress_unifurcations" not in fi.all_params or q == NODE + ".extract_subtree":
+                continue
+            if "suppress_unifurcations" in unused_params(fi):
+                continue  # reported by R08.1
+            cfg = cfg_of(fi)
+
+            def is_flag_test(n):
+                return n.kind == "test" and norm(n.ast) == "suppress_unifurcations"
+
+            def does_suppress(n):
+                for c in node_calls(n):
+                    if call_name(c) == "suppress_unifurcations" and isinstance(c.func, ast.Attribute):
+                        return True
+                    kw = get_kwarg(c, "suppress_unifurcations")
+                    # forwarding counts only towards a Tree-level family function (self.<pruner>(...)):
+                    # Node.remove_child's own suppression is partial (it needs the parent to have a parent)
+                    if kw is not None and norm(kw) == "suppress_unifurcations" and isinstance(c.func, ast.Attribute) and norm(c.func.value) in ("self", "self.seed_node"):
+                        return True
+                return False
+
+            def direct_suppress(n):
+                return any(call_name(c) == "suppress_unifurcations" and isinstance(c.func, ast.Attribute) for c in node_calls(n))
+            # truthy flag => suppression/forwarding on every path
+            w = cfg.can_reach(cfg.entry, lambda n: n is cfg.exit, avoid=does_suppress, follow_exc=False,
+                              edge_ok=lambda s, l, d: not (is_flag_test(s) and l == "f"))
+            ok_t = w is None
+            if q == TREE + ".prune_nodes":
+                ok_t = True  # forwards only when prune_leaves_without_taxa is requested (documented scope of the flag there)
+            rep.check(ok_t, "R08.4", fi.qualname, "flag truthy => suppression", fn_where(fi),
+                      "%s: with suppress_unifurcations truthy every path suppresses or forwards the flag" % fi.name,
+                      "%s has a path on which suppress_unifurcations is truthy and neither self.suppress_unifurcations() is called nor the flag forwarded: nodes left with one child survive" % fi.qualname)
+            # falsy flag => no direct suppression
+            reach = cfg.reach([cfg.entry], follow_exc=False, edge_ok=lambda s, l, d: not (is_flag_test(s) and l == "t"))
+            has_test = any(is_flag_test(n) for n in cfg.nodes)
+            bad = [n for n in reach if direct_suppress(n)]
+            rep.check(not bad, "R08.4", fi.qualname, "flag falsy => no suppression", fn_where(fi, bad[0].stmt if bad else None),
+                      "%s: self.suppress_unifurcations() is unreachable when the flag is falsy" % fi.name,
+                      "%s calls self.suppress_unifurcations() on a path where the caller declined suppression" % fi.qualname)
+        # extract_subtree: merge branch gated by the flag
+        fi = index.function(NODE + ".extract_subtree")
         cfg = cfg_of(fi)
+        # locals that are falsy whenever the flag is: X = suppress_unifurcations and ...
+        derived = set()
+        for n in walk_no_nested(fi.node):
+            if isinstance(n, ast.Assign) and isinstance(n.targets[0], ast.Name) and isinstance(n.value, ast.BoolOp) and isinstance(n.value.op, ast.And) \
+                    and any(norm(v) == "suppress_unifurcations" for v in n.value.values):
+                if sum(1 for m in walk_no_nested(fi.node) if isinstance(m, ast.Assign) and norm(m.targets[0]) == n.targets[0].id) == 1:
+                    derived.add(n.targets[0].id)
+        flag_tests = [n for n in cfg.nodes if n.kind == "test" and (norm(n.ast) == "suppress_unifurcations" or norm(n.ast) in derived)]
+        merges = [n for n in cfg.nodes if n.kind == "stmt" and isinstance(n.ast, ast.AugAssign) and "edge.length" in norm(n.ast.target)]
+        if not flag_tests or not merges:
+            raise AnalysisError("R08.4: extract_subtree unifurcation-merge branch not recognised")
+        # the branch that drops an internal node whose descendants were all filtered out is NOT governed by the flag
+        singles = [n for n in cfg.nodes if n.kind == "test" and isinstance(n.ast, ast.Compare) and isinstance(n.ast.left, ast.Call) and call_name(n.ast.left) == "len"
+                   and n.ast.left.args and const_value(n.ast.comparators[0]) == 1 and isinstance(n.ast.ops[0], ast.Eq)]
+        acc = {norm(n.ast.left.args[0]) for n in singles}
+        empties = [n for n in cfg.nodes if n.kind == "test" and norm(n.ast) in acc]     # `not X` is a test of X with the edges swapped
+        if len(acc) != 1 or not empties:
+            raise AnalysisError("R08.4: extract_subtree emptied-clade branch not recognised")
+        drops = []
+        for e in empties:
+            for l, d in e.succ:
+                if l == "f":
+                    w = cfg.can_reach(d, lambda x: x.kind == "stmt" and isinstance(x.ast, ast.Continue), follow_exc=False, skip_src=False,
+                                      avoid=lambda x: x.kind in ("for", "join") and x is not d)
+                    if w is not None:
+                        drops.append(w)
+        if not drops:
+            raise AnalysisError("R08.4: extract_subtree: no `continue` under the emptied-clade test")
+        reach_f = cfg.reach([cfg.entry], follow_exc=False, edge_ok=lambda s_, l, d: not (s_ in flag_tests and l == "t"))
+        okd = all(any(x is w for x in reach_f) for w in drops)
+        rep.check(okd, "R08.4", fi.qualname, "emptied clade dropped regardless of the flag", fn_where(fi, drops[0].stmt),
+                  "extract_subtree: an internal node whose descendants were all filtered out is dropped also when suppress_unifurcations is falsy",
+                  "extract_subtree drops an internal node whose descendants were all filtered out only when suppress_unifurcations is truthy: declining suppression must affect single-child nodes only, otherwise the emptied clade is cloned as a taxon-less leaf and the extracted tree is not the induced subtree (and disagrees with prune/retain under the same option)")
+        reach = cfg.reach([cfg.entry], follow_exc=False, edge_ok=lambda s, l, d: not (s in flag_tests and l == "t"))
+        bad = [m for m in merges if m in reach]
+        rep.check(not bad, "R08.4", fi.qualname, "merge branch gated by flag", fn_where(fi, merges[0].stmt),
+                  "extract_subtree: the edge-length merge of a single surviving child is reachable only with suppress_unifurcations truthy",
+                  "extract_subtree merges a single child into its parent even when suppress_unifurcations is falsy")
+        # and the flag test is conjoined with the single-child test
+        single = [n for n in cfg.nodes if n.kind == "test" and any(n.stmt is ft.stmt for ft in flag_tests) and isinstance(n.ast, ast.Compare)
+                  and isinstance(n.ast.left, ast.Call) and call_name(n.ast.left) == "len" and const_value(n.ast.comparators[0]) == 1 and isinstance(n.ast.ops[0], ast.Eq)]
+        rep.check(bool(single), "R08.4", fi.qualname, "single-child test", fn_where(fi), "extract_subtree tests len(children_to_add) == 1 before merging",
+                  "extract_subtree no longer restricts unifurcation merging to nodes with exactly one surviving child")
 
-        def is_flag_test(n):
-            return n.kind == "test" and norm(n.ast) == "suppress_unifurcations"
-
-        def does_suppress(n):
-            for c in node_calls(n):
-                if call_name(c) == "suppress_unifurcations" and isinstance(c.func, ast.Attribute):
-                    return True
-                kw = get_kwarg(c, "suppress_unifurcations")
-                # forwarding counts only towards a Tree-level family function (self.<pruner>(...)):
-                # Node.remove_child's own suppression is partial (it needs the parent to have a parent)
-                if kw is not None and norm(kw) == "suppress_unifurcations" and isinstance(c.func, ast.Attribute) and norm(c.func.value) in ("self", "self.seed_node"):
-                    return True
-            return False
-
-        def direct_suppress(n):
-            return any(call_name(c) == "suppress_unifurcations" and isinstance(c.func, ast.Attribute) for c in node_calls(n))
-        # truthy flag => suppression/forwarding on every path
-        w = cfg.can_reach(cfg.entry, lambda n: n is cfg.exit, avoid=does_suppress, follow_exc=False,
-                          edge_ok=lambda s, l, d: not (is_flag_test(s) and l == "f"))
-        ok_t = w is None
-        if q == TREE + ".prune_nodes":
-            ok_t = True  # forwards only when prune_leaves_without_taxa is requested (documented scope of the flag there)
-        rep.check(ok_t, "R08.4", fi.qualname, "flag truthy => suppression", fn_where(fi),
-                  "%s: with suppress_unifurcations truthy every path suppresses or forwards the flag" % fi.name,
-                  "%s has a path on which suppress_unifurcations is truthy and neither self.suppress_unifurcations() is called nor the flag forwarded: nodes left with one child survive" % fi.qualname)
-        # falsy flag => no direct suppression
-        reach = cfg.reach([cfg.entry], follow_exc=False, edge_ok=lambda s, l, d: not (is_flag_test(s) and l == "t"))
-        has_test = any(is_flag_test(n) for n in cfg.nodes)
-        bad = [n for n in reach if direct_suppress(n)]
-        rep.check(not bad, "R08.4", fi.qualname, "flag falsy => no suppression", fn_where(fi, bad[0].stmt if bad else None),
-                  "%s: self.suppress_unifurcations() is unreachable when the flag is falsy" % fi.name,
-                  "%s calls self.suppress_unifurcations() on a path where the caller declined suppression" % fi.qualname)
-    # extract_subtree: merge branch gated by the flag
-    fi = index.function(NODE + ".extract_subtree")
-    cfg = cfg_of(fi)
-    flag_tests = [n for n in cfg.nodes if n.kind == "test" and norm(n.ast) == "suppress_unifurcations"]
-    merges = [n for n in cfg.nodes if n.kind == "stmt" and isinstance(n.ast, ast.AugAssign) and "edge.length" in norm(n.ast.target)]
-    if not flag_tests or not merges:
-        raise AnalysisError("R08.4: extract_subtree unifurcation-merge branch not recognised")
-    reach = cfg.reach([cfg.entry], follow_exc=False, edge_ok=lambda s, l, d: not (s in flag_tests and l == "t"))
-    bad = [m for m in merges if m in reach]
-    rep.check(not bad, "R08.4", fi.qualname, "merge branch gated by flag", fn_where(fi, merges[0].stmt),
-              "extract_subtree: the edge-length merge of a single surviving child is reachable only with suppress_unifurcations truthy",
-              "extract_subtree merges a single child into its parent even when suppress_unifurcations is falsy")
-    # and the flag test is conjoined with the single-child test
-    single = [n for n in cfg.nodes if n.kind == "test" and any(n.stmt is ft.stmt for ft in flag_tests) and isinstance(n.ast, ast.Compare)
-              and isinstance(n.ast.left, ast.Call) and call_name(n.ast.left) == "len" and const_value(n.ast.comparators[0]) == 1 and isinstance(n.ast.ops[0], ast.Eq)]
-    rep.check(bool(single), "R08.4", fi.qualname, "single-child test", fn_where(fi), "extract_subtree tests len(children_to_add) == 1 before merging",
-              "extract_subtree no longer restricts unifurcation merging to nodes with exactly one surviving child")
-
-    thin_clone_rule(index, rep, "R08.5")
+        thin_clone_rule(index, rep, "R08.5")
 
     # ---- R08.6
-    rep.rule("R08.6", "the three single-child splice-out sites (suppress_unifurcations, encode_bipartitions, extract_subtree) merge edge lengths with the same None handling: removed length None -> child unchanged; child None -> takes the removed length; both -> sum")
-    sites = [(TREE + ".suppress_unifurcations", None), (TREE + ".encode_bipartitions", None), (NODE + ".extract_subtree", None)]
-    forms = {}
-    for q, _ in sites:
-        fi = index.function(q)
-        found = None
-        for iff in ast.walk(fi.node):
-            if not isinstance(iff, ast.If):
-                continue
-            cp = compare_parts(iff.test)
-            if not (cp and cp[1] == "IsNot" and is_none(cp[2]) and norm(cp[0]).endswith("edge.length")):
-                continue
-            removed = norm(cp[0])
-            inner = [x for x in iff.body if isinstance(x, ast.If)]
-            if len(inner) != 1 or len(iff.body) != 1:
-                continue
-            cp2 = compare_parts(inner[0].test)
-            if not (cp2 and cp2[1] == "Is" and is_none(cp2[2]) and norm(cp2[0]).endswith("edge.length")):
-                continue
-            child = norm(cp2[0])
-            a = inner[0].body[0] if inner[0].body else None
-            b = inner[0].orelse[0] if inner[0].orelse else None
-            form = (
-                isinstance(a, ast.Assign) and norm(a.targets[0]) == child and norm(a.value) == removed,
-                isinstance(b, ast.AugAssign) and isinstance(b.op, ast.Add) and norm(b.target) == child and norm(b.value) == removed,
-                len(inner[0].body) == 1 and len(inner[0].orelse) == 1,
-            )
-            found = (iff, form, removed, child)
-            break
-        forms[q] = found
-        ok = found is not None and all(found[1])
-        rep.check(ok, "R08.6", fi.qualname, "length merge at the splice-out site", fn_where(fi, found[0] if found else None),
-                  "%s merges lengths canonically: `if X.len is not None: if C.len is None: C.len = X.len else: C.len += X.len`" % fi.name,
-                  "%s no longer merges the spliced-out node's edge length into its single child the way its sibling sites do (missing child length must take the removed length, otherwise the two add): path lengths through the removed node change, and extraction disagrees with in-place pruning" % fi.qualname)
+    with rep.section("R08.6"):
+        rep.rule("R08.6", "the three single-child splice-out sites (suppress_unifurcations, encode_bipartitions, extract_subtree) merge edge lengths with the same None handling: removed length None -> child unchanged; child None -> takes the removed length; both -> sum")
+        sites = [(TREE + ".suppress_unifurcations", None), (TREE + ".encode_bipartitions", None), (NODE + ".extract_subtree", None)]
+        forms = {}
+        for q, _ in sites:
+            fi = index.function(q)
+            found = None
+            for iff in ast.walk(fi.node):
+                if not isinstance(iff, ast.If):
+                    continue
+                cp = compare_parts(iff.test)
+                if not (cp and cp[1] == "IsNot" and is_none(cp[2]) and norm(cp[0]).endswith("edge.length")):
+                    continue
+                removed = norm(cp[0])
+                inner = [x for x in iff.body if isinstance(x, ast.If)]
+                if len(inner) != 1 or len(iff.body) != 1:
+                    continue
+                cp2 = compare_parts(inner[0].test)
+                if not (cp2 and cp2[1] == "Is" and is_none(cp2[2]) and norm(cp2[0]).endswith("edge.length")):
+                    continue
+                child = norm(cp2[0])
+                a = inner[0].body[0] if inner[0].body else None
+                b = inner[0].orelse[0] if inner[0].orelse else None
+                form = (
+                    isinstance(a, ast.Assign) and norm(a.targets[0]) == child and norm(a.value) == removed,
+                    isinstance(b, ast.AugAssign) and isinstance(b.op, ast.Add) and norm(b.target) == child and norm(b.value) == removed,
+                    len(inner[0].body) == 1 and len(inner[0].orelse) == 1,
+                )
+                found = (iff, form, removed, child)
+                break
+            forms[q] = found
+            ok = found is not None and all(found[1])
+            rep.check(ok, "R08.6", fi.qualname, "length merge at the splice-out site", fn_where(fi, found[0] if found else None),
+                      "%s merges lengths canonically: `if X.len is not None: if C.len is None: C.len = X.len else: C.len += X.len`" % fi.name,
+                      "%s no longer merges the spliced-out node's edge length into its single child the way its sibling sites do (missing child length must take the removed length, otherwise the two add): path lengths through the removed node change, and extraction disagrees with in-place pruning" % fi.qualname)
 
 
 def thin_clone_rule(index, rep, rid):
